@@ -82,6 +82,15 @@ def check(dsk, deps, convert):
         signal.signal(signal.SIGALRM, old)
     if set(o) != set(dsk):
         return f"priorities for {sorted(map(str, o))}, graph keys {sorted(dsk)}"
+    # return_stats=True (what visualize uses): the same keys with the same priorities, wrapped in Order records
+    try:
+        so = order(g, return_stats=True)
+    except Exception as e:  # noqa
+        return f"return_stats=True: {type(e).__name__}: {e}"
+    if set(so) != set(dsk):
+        return f"return_stats=True gives priorities for {sorted(map(str, so))}, graph keys {sorted(dsk)}"
+    if {k: v.priority for k, v in so.items()} != o:
+        return f"return_stats=True gives priorities { {k: v.priority for k, v in so.items()} }, the plain call gives {o}"
     if len(set(o.values())) != len(o):
         return f"priorities are not pairwise distinct: {o}"
     for k, ds in deps.items():
